@@ -123,7 +123,8 @@ def run_case(case):
             diff2 = guarded("sub", lambda: y - x)
             if lt2 is not None and gt2 is not None and diff2 is not None:
                 fits2 = all(dy[f] - dx[f] >= 0 for f in FIELDS)
-                chk(f"lt/agrees-with-sub/{name}", bool(lt2) == fits2 and bool(lt2) == (diff2.negative_fields() == []),
+                chk(f"lt/agrees-with-sub/{name}", bool(lt2) == fits2 and
+                    bool(lt2) == (guarded("negative_fields", lambda: diff2.negative_fields()) == []),
                     f"x<y={lt2} fits={fits2} x={dx} y={dy}")
                 chk(f"gt/agrees-with-sub/{name}", bool(gt2) == fits2, f"y>x={gt2} fits={fits2} x={dx} y={dy}")
         back = guarded("add", lambda: d + a)
@@ -140,7 +141,8 @@ def run_case(case):
                 guarded(f"str/{name}", lambda: (str(sm), sm.to_json()))
     z = guarded("sub", lambda: a - a)
     if z is not None:
-        chk("sub/self-zero", all(x == 0 for x in fd(z).values()) and z.negative_fields() == [])
+        chk("sub/self-zero", all(x == 0 for x in fd(z).values()) and
+            guarded("negative_fields", lambda: z.negative_fields()) == [])
     # equality
     eq_ab = guarded("eq", lambda: a == b)
     eq_ba = guarded("eq", lambda: b == a)
